@@ -629,9 +629,12 @@ def run_impl(sc, weights='patch', split=False, reduced=False):
             env.step = counted_step
             orig_add = env.add_datapoint
 
+            tap = common.DataTap()
+
             def add_datapoint(label, sub, dp):
                 datalog.append(enc_data(W, label, sub, dp))
                 orig_add(label, sub, dp)
+                tap.add(label, sub, dp)
             env.add_datapoint = add_datapoint
 
             W.uoplog = []
@@ -692,6 +695,7 @@ def run_impl(sc, weights='patch', split=False, reduced=False):
                 out, devs, pools = snapshot(W, st, new)
                 flat += out
                 obs.append(observe(W, x, st, devs, pools, new))
+                obs[-1]['stored'] = tap.diff(env)
         finally:
             rmmod.ReservedResources.__init__ = orig_rr_init
             mmod._WorkOrder.__init__ = orig_wo_init
